@@ -126,6 +126,14 @@ def _wrap_chunk(vecs):
                 continue
             if cfg['text'] != text:
                 bad.append(('caller text modified', dict(case, after=repr(cfg['text']))))
+            # the supplied text survives a call that fails, too (the same configuration object is used again)
+            try:
+                emmet.expand(v['abbr'] + '[title="x', cfg)
+            except Exception:
+                pass
+            if cfg.get('text') != text:
+                bad.append(('caller text modified', dict(case, after=repr(cfg.get('text')), by='a call that raised a parse error')))
+                cfg['text'] = text
             try:
                 lst = [n for n in ph.tree(ph.lex(out)) if n['n'] != '#text']
             except ph.LexError as ex:
@@ -143,9 +151,9 @@ def _wrap_chunk(vecs):
                         ok = False
                     elif e['cls'] != NONE and attrs.get('class') != e['cls']:
                         ok = False
-                    elif v['implicit'] and g['t'] != et:
+                    elif v['implicit'] and '\n' not in et and g['t'] != et:
                         ok = False
-                    elif not v['implicit'] and _lines_of(g['t']) != _lines_of(et):
+                    elif (not v['implicit'] or '\n' in et) and _lines_of(g['t']) != _lines_of(et):       # a text of several lines is laid out with indentation
                         ok = False
                     if not ok:
                         break
@@ -201,8 +209,8 @@ def run(out):
             out.sample({'payload': p, 'text': vecs[p]['t']})
 
     atoms = {"a", " b ", "", "  ", "*c", "$x", "[d]", "a>b", "${1}", "$#", "it$$", "x y", "{z}", ".c", "eBSf", "'q'", "~"}
-    winsts = [('wrap-exhaustive', dict(constants={'MaxLines': 2 if quick else 3, 'LineAtoms': atoms, 'TemplateIdx': set(range(1, 23))})),
-              ('wrap-simulated', dict(constants={'MaxLines': 6, 'LineAtoms': atoms, 'TemplateIdx': set(range(1, 23))},
+    winsts = [('wrap-exhaustive', dict(constants={'MaxLines': 2 if quick else 3, 'LineAtoms': atoms, 'TemplateIdx': set(range(1, 25))})),
+              ('wrap-simulated', dict(constants={'MaxLines': 6, 'LineAtoms': atoms, 'TemplateIdx': set(range(1, 25))},
                                       simulate=3 if quick else 60, depth=7, seed=out.seed))]
     for name, kw in winsts:
         r = common.run_tlc('AbbrWrap', timeout=3000, heap='12g', **kw)
